@@ -27,14 +27,32 @@ def q(tier, quick, thorough):
     return quick if tier == "quick" else thorough
 
 
+TIMING_KEYS = (":lost", ":not-established", ":not-reestablished", ":setup", "mismatch:udp:code27")
+
+
+def timing_only(f):
+    return any(k in f.get("key", "") for k in TIMING_KEYS)
+
+
 def recipe(c: Check):
     c.build(["Properties/C03.vo", "Corr/C03.vo"], harness=["c03"], units=["t1"])
     c.obligations("C03")
+    n0 = len(c.failures)
     st = c.run_driver("udp", q(c.tier, 240, 3000), shards=q(c.tier, 8, 16), timeout=q(c.tier, 300, 1500))
+    # arrival within a time limit is a runtime-residue observation (DESIGN section 3): if ONLY such observations
+    # failed, the run is repeated on the same seed (up to twice) and reported only if it reproduces
+    for attempt in (2, 3):
+        new = c.failures[n0:]
+        if not (new and all(timing_only(f) for f in new)):
+            break
+        c.notes.append("attempt %d: only arrival-time observations failed (%s); re-running on the same seed" % (
+            attempt - 1, ", ".join(sorted({f.get("key", "") for f in new}))))
+        del c.failures[n0:]
+        st = c.run_driver("udp", q(c.tier, 240, 3000), shards=q(c.tier, 8, 16), timeout=q(c.tier, 300, 1500))
     if st is not None:
         cnt = c.cov.get("coq_counters", {}).get("udp", {})
         # sanity of the check itself: the branches the property names must have been reached
-        need = dict(NPKT=50, NOVERSIZE=1, NDECERR=5, NFWD=3, NSYS=4, NIDLE=1, NSOCKETS=6)
+        need = dict(NPKT=50, NOVERSIZE=1, NDECERR=5, NFWD=3, NSYS=4, NIDLE=1, NSOCKETS=6, NFULL=1, NCAP=1)
         for k, v in need.items():
             if cnt.get(k, 0) < v and not c.broken:
                 c.broken.append(dict(kind="coverage", name="counter %s=%s below %s: a branch the property names was not exercised" % (k, cnt.get(k, 0), v),
@@ -47,7 +65,9 @@ def recipe(c: Check):
              "bytes, trailing bits, '=' inside) compared with Model.Base64.b64_decode. Part (ii) fwd: real udp.ForwardUserConn + udp.Forwarder "
              "back to back through real WriteMsg/ReadMsg, 2-5 loopback user sockets on 127.0.3.x (two behind one IP), xor echo backend, bursts; "
              "the model run on the light-load schedule must produce the observed backend log (socket <-> source port by first appearance) and "
-             "per-user reply logs. Part idle: the Forwarder's 30 s read deadline elapses for real, late datagrams to the old ports, new sockets "
+             "per-user reply logs. Part full: nobody drains sendCh while 1032..1087 datagrams arrive at the real ForwardUserConn: exactly the "
+             "first 1024 are kept and later delivered in order, the rest dropped (model: DSendFull); every make(chan, N) of the four "
+             "proxy/visitor files has N = 1024 = the model's uqcap. Part idle: the Forwarder's 30 s read deadline elapses for real, late datagrams to the old ports, new sockets "
              "afterwards, compared with the model run containing ESockIdle. Part (iii) sys: in-process frps + real frpc, udp and sudp+visitor, "
              "encryption/compression/tcpMux variants, work connection replaced mid-stream (server-side accessor / relay kill), evaluated by the "
              "monitors C03_holds in Coq and in Go (payload equality, no duplicate, one socket one user, reply to the originating user only, "
